@@ -444,6 +444,9 @@ func TestC20(t *testing.T) {
 	for i := 0; i < rounds; i++ {
 		c20RoundTrip(t, rec, i, queries)
 	}
+	for i := 0; i < ev.Pick(1, 2); i++ {
+		c20LiqLend(t, rec, i, queries)
+	}
 	rec.Floor("imports", 1)
 	rec.Floor("queries_compared", 1000)
 	rec.Floor("query_methods_with_data", 20)
